@@ -11,8 +11,11 @@
     R1 (Inv of [timer_armed_when_needed], restricted to what the probe can see): not closed, not
        anti-amplification blocked, and
          - Established with ack-eliciting packets in flight, or
-         - a client still in the handshake (in flight in Initial/Handshake, or nothing in flight
-           and the server has not acknowledged a Handshake packet: the anti-deadlock PTO), or
+         - a client still in the handshake with ack-eliciting packets in flight (Initial/Handshake
+           space: no 0-RTT in the scenario), or that has no Handshake keys yet (then the server cannot
+           have acknowledged a Handshake packet: the anti-deadlock PTO must be armed even with
+           nothing in flight; once it has Handshake keys the probe cannot see whether a Handshake
+           packet was acknowledged, which legitimately stops the timer), or
          - a server in the handshake whose path is not validated (so no Handshake packet of the
            peer was processed and its own Handshake flight cannot have been acknowledged) with
            ack-eliciting packets in flight
@@ -38,7 +41,7 @@ Definition p_blocked (p : list Z) : bool := (pf p 1 =? 0) && (3 * pf p 3 <? pf p
 (** the part of [Recovery.needs] visible in a probe; [zr]: the scenario uses 0-RTT *)
 Definition p_needs (zr : bool) (ep : Z) (p : list Z) : bool :=
   ((pf p 0 =? 1) && (0 <? pf p 5))
-  || ((pf p 0 =? 0) && (ep =? 0) && (negb zr || (pf p 5 =? 0)))
+  || ((pf p 0 =? 0) && (ep =? 0) && ((negb zr && (0 <? pf p 5)) || (pf p 27 =? 0)))
   || ((pf p 0 =? 0) && (ep =? 1) && (pf p 1 =? 0) && (pf p 27 =? 2) && (0 <? pf p 5)).
 
 Definition armed_ok (zr : bool) (p : list Z) : bool :=
